@@ -14,6 +14,10 @@ import gen_mol
 LIGANDS = ['F', 'Cl', 'Br', 'I', 'S', 'O', 'N', 'P']
 
 
+def lt(el):
+    return '[H]' if el == 'H' else el
+
+
 def tok_before(side):          # substituent written before its atom:  X/C  -> X is below
     return '/' if side == 'down' else '\\'
 
@@ -36,6 +40,7 @@ def build(rng, nunits=None, chiral_p=0.3):
     stubs = []         # placeholders for unmarked substituents that may be cut off: (token index, text)
     labels = []
     alts = {}
+    cuts_lig = {}
 
     def chain(k):
         for _ in range(k):
@@ -52,6 +57,10 @@ def build(rng, nunits=None, chiral_p=0.3):
     for u in range(nunits):
         x, y = pool.pop(), pool.pop()
         units_left[0] -= 1
+        if rng.random() < 0.15:
+            x = 'H'          # an explicitly written hydrogen as marked substituent
+        elif rng.random() < 0.15:
+            y = 'H'
         sx, sy = rng.choice(['up', 'down']), rng.choice(['up', 'down'])
         sides_left = {x: sx}
         sides_right = {y: sy}
@@ -60,7 +69,7 @@ def build(rng, nunits=None, chiral_p=0.3):
         tail = rng.choice([0, 0, 1, 2]) if last_unit else rng.choice([1, 2])
         # left atom
         if has_prev:
-            left = 'C(%s%s)' % (tok_after(sx), x)
+            left = 'C(%s%s)' % (tok_after(sx), lt(x))
         else:
             form = rng.choice(['before', 'after'])
             second = rng.random() < 0.35 and len(pool) > 2 * units_left[0]
@@ -73,14 +82,15 @@ def build(rng, nunits=None, chiral_p=0.3):
                 sub = '(C)'
                 stubs.append(len(toks))
             if form == 'before':
-                left = x + tok_before(sx) + 'C' + sub
+                left = lt(x) + tok_before(sx) + 'C' + sub
+                cuts_lig['left'] = (len(toks), len(lt(x)), tok_before(sx))
             else:
                 # anchor first, then the substituents as branches; the last one may be written without brackets? no: '=' follows
-                left = 'C(%s%s)' % (tok_after(sx), x) + sub
+                left = 'C(%s%s)' % (tok_after(sx), lt(x)) + sub
         toks.append([left, 'double'])
         # right atom
         if tail > 0:
-            right = 'C(%s%s)' % (tok_after(sy), y)
+            right = 'C(%s%s)' % (tok_after(sy), lt(y))
         else:
             second = rng.random() < 0.35 and len(pool) > 2 * units_left[0]
             sub = ''
@@ -91,20 +101,21 @@ def build(rng, nunits=None, chiral_p=0.3):
             elif rng.random() < 0.4:
                 sub = '(C)'
                 stubs.append(len(toks))
-            right = 'C' + sub + tok_after(sy) + y
+            right = 'C' + sub + tok_after(sy) + lt(y)
+            cuts_lig['right'] = (len(toks), len(lt(y)), tok_after(sy))
             if not second:
-                alts[len(toks)] = y + tok_before(sy) + 'C' + sub
+                alts[len(toks)] = lt(y) + tok_before(sy) + 'C' + sub
         toks.append([right, 'single' if tail > 0 else None])
         for a, sa in sides_left.items():
             for b, sb in sides_right.items():
                 expected[(a, b)] = 'trans' if sa != sb else 'cis'
         chain(tail)
     toks[-1][1] = None
-    return toks, stubs, expected, labels, alts
+    return toks, stubs, expected, labels, alts, cuts_lig
 
 
 def stereo_case(rng, swap_only=None):
-    toks, stubs, expected, labels, alts = build(rng)
+    toks, stubs, expected, labels, alts, cuts_lig = build(rng)
     whole = ''.join(('=' + t if i > 0 and toks[i - 1][1] == 'double' else t) for i, (t, c) in enumerate(toks))
     # choose cuts
     mode = rng.choice(['none', 'double', 'single', 'any', 'any'])
@@ -163,9 +174,30 @@ def stereo_case(rng, swap_only=None):
             cur = nxt
     frags.append(cur)
     nmain = len(frags)
+    lig_frags = []       # (owner main fragment, text, ligand-first-in-writing?)
+    if mode in ('single', 'any') and not right_ligand_first:
+        if 'left' in cuts_lig and rng.random() < 0.35 and frags[0].startswith(toks[0][0][:cuts_lig['left'][1] + 1]):
+            _, n, tk = cuts_lig['left']
+            lab += 1
+            lig = frags[0][:n]
+            frags[0] = '[$g%d]' % lab + frags[0][n:]
+            lig_frags.append((0, lig + tk + '[$g%d]' % lab, True))
+        if 'right' in cuts_lig and rng.random() < 0.35:
+            _, n, tk = cuts_lig['right']
+            last = nmain - 1
+            if frags[last].endswith(tk + toks[-1][0][-n:]) and toks[-1][1] is None and cuts_lig['right'][0] == len(toks) - 1:
+                lab += 1
+                lig = frags[last][-n:]
+                frags[last] = frags[last][:-n] + '[$g%d]' % lab
+                lig_frags.append((last, '[$g%d]' % lab + tk + lig, False))
     for owner, l in stub_frags:
         frags.append('[$s%d]C' % l)
         base.add_edge(owner, len(frags) - 1, order=1)
+    lig_info = []
+    for owner, text, lig_first in lig_frags:
+        frags.append(text)
+        base.add_edge(owner, len(frags) - 1, order=1)
+        lig_info.append((owner, len(frags) - 1, lig_first))
     for n in range(len(frags)):
         base.add_node(n)
     names = ['F%d' % i for i in range(len(frags))]
@@ -191,9 +223,11 @@ def stereo_case(rng, swap_only=None):
     appear = {n: bs.index('[#%s]' % n) for n in names}
     reversed_double = any(d.get('order') == 2 and appear[names[min(a, b)]] > appear[names[max(a, b)]]
                           for a, b, d in base.edges(data=True))
-    kinds = sorted({toks[i][1] for i in cuts} | ({'stub'} if cut_stubs else set()))
+    # a cut-off marked substituent listed on the wrong side of its atom's fragment
+    reversed_ligand = any((appear[names[lf]] > appear[names[owner]]) == lig_first for owner, lf, lig_first in lig_info)
+    kinds = sorted({toks[i][1] for i in cuts} | ({'stub'} if cut_stubs else set()) | ({'substituent'} if lig_frags else set()))
     return {'kind': 'stereo', 's': s, 'whole': '{[#M]}.{#M=' + whole + '}', 'cuts': kinds or ['none'],
-            'natural': natural, 'reversed_double': reversed_double, 'right_ligand_first': right_ligand_first, 'expected': [[a, b, c] for (a, b), c in sorted(expected.items())],
+            'natural': natural, 'reversed_double': reversed_double, 'right_ligand_first': right_ligand_first, 'reversed_ligand': reversed_ligand, 'expected': [[a, b, c] for (a, b), c in sorted(expected.items())],
             'labels': [[l, nb] for l, nb in labels], 'all_atom': True}
 
 
